@@ -23,19 +23,28 @@ FINISH = {"level": "proof", "assumptions": [
     "one_winner / monotone are proved in their _partial forms only (pure acceptors); the full statements are refuted by concrete executions"]}
 
 
+# causes that are the recorded defects D1/D2/D3 at work in the generated execution (see the harness: vElCause, check)
+KNOWN_CAUSES = (":restart-forgot-commit", ":failed-commit-cleared-latch", ":doproposal-overwrote-number",
+                ":commit-not-persisted", ":proposal-not-persisted")
+
+
 def read_monitor(ctx, outdir, mode, prefixes):
+    """Signatures are `C12:<symptom>:<cause>` or `C12:acceptor-…` (handler contract). Anything that is not one of the
+    recorded causes (":other", a bare acceptor-level signature, commit-regressed) is reported first."""
     p = os.path.join(outdir, mode + ".mon")
     seen = {}
+    rows = []
     if os.path.exists(p):
         for line in open(p):
             line = line.strip()
-            if not line:
-                continue
-            m = json.loads(line)
-            sig = m["signature"]
-            seen[sig] = seen.get(sig, 0) + 1
-            if any(sig.startswith(px) for px in prefixes):
-                ctx.add_violation(m["what"], sig, m["replay"])
+            if line:
+                rows.append(json.loads(line))
+    rows.sort(key=lambda m: 1 if m["signature"].endswith(KNOWN_CAUSES) else 0)
+    for m in rows:
+        sig = m["signature"]
+        seen[sig] = seen.get(sig, 0) + 1
+        if any(sig.startswith(px) for px in prefixes):
+            ctx.add_violation(m["what"], sig, m["replay"])
     return seen
 
 
